@@ -18,7 +18,7 @@ var defectKinds = []string{
 	"similar-paths", "path-bad-user-types", "undefined-types-many-types", "undefined-macros", "bad-enum-bodies",
 	"request-without-body", "response-without-body", "headers-not-object",
 	"empty-path-parameter", "repeated-path-parameter", "path-parameters-redefined",
-	"duplicate-types-other-notation", "notation-mix", "hostile-paths",
+	"duplicate-types-other-notation", "notation-mix", "hostile-paths", "export-failures",
 }
 
 // defectGroups: kinds that are detected in the same phase of the builder.
@@ -95,6 +95,24 @@ func defectBlock(kind string, n int, r *Rand) string {
 	case "similar-paths":
 		for i := 0; i < k; i++ {
 			fmt.Fprintf(&sb, "GET /zs%d_%d/{a}\n  200 any\nGET /zs%d_%d/{b}\n  200 any\n", n, i, n, i)
+		}
+	case "export-failures":
+		// accepted by the builder, refused by the OpenAPI exporter - in two or three DIFFERENT ways
+		// within one interaction (which failure is reported must not depend on anything ambient):
+		// an invalid regular expression (compiled lazily; the exporter panics), a code declared
+		// twice with an `empty` body among them, a code declared `empty` twice
+		fmt.Fprintf(&sb, "GET /zef%d\n", n)
+		ways := r.Perm(3)
+		for i := 0; i < r.Range(2, 3); i++ {
+			code := 200 + 100*i + n%7
+			switch ways[i] {
+			case 0:
+				fmt.Fprintf(&sb, "  %d regex\n    /a(%d/\n", code, n)
+			case 1:
+				fmt.Fprintf(&sb, "  %d\n    {\"a\": %d}\n  %d empty\n", code, n, code)
+			default:
+				fmt.Fprintf(&sb, "  %d empty\n  %d empty\n", code, code)
+			}
 		}
 	case "hostile-paths":
 		// URL paths made of unusual segments (empty, ".", "..", "{}", unbalanced braces, percent
@@ -259,7 +277,7 @@ func genDefects(r *Rand, n int) *Project {
 	// Defects only compete for "which error is reported" when they are found in the same phase
 	// of the builder. 1/3: several defects of ONE kind; 1/3: several kinds of ONE phase group;
 	// 1/3: any kinds.
-	mode := r.Intn(3)
+	mode := r.Pick2(0, 1, 1, 2) // half of them: several kinds of ONE phase (they compete for "which error is reported")
 	k0 := defectKinds[r.Intn(len(defectKinds))]
 	grp := defectGroups[r.Intn(len(defectGroups))]
 	for i := 0; i < n; i++ {
